@@ -4,14 +4,22 @@
 (* by the payload (C03) and consistent with a declared raster size when the    *)
 (* data fits.  Gen cfg exports the payloads for replay into Sixel::parse_from. *)
 EXTENDS SixelDecoder, TLC, Json
-CONSTANTS MaxToks, Export
+CONSTANTS MaxToks, Export, BigAlphabet
 VARIABLES toks
 Alphabet == { <<63>>, <<126>>, <<64>>, <<45>>, <<36>>, <<33, 50>>, <<33, 51, 126>>, <<35, 49>>, <<35, 49, 59, 50, 59, 48, 59, 48, 59, 48>>,
               <<34, 49, 59, 49, 59, 50, 59, 54>>, <<34, 49, 59, 49, 59, 49, 59, 49>>, <<34, 49, 59, 49, 59, 51, 59, 49, 51>>, <<34, 49, 59, 49, 59, 55>>, <<48>>,
               <<33, 52, 48, 57, 54>>, <<33, 57, 57, 57, 57, 57, 57, 57>> }                 \* "!4096", "!9999999": the repeat applies to WHATEVER follows, '-' included
+\* raster attributes with extreme sizes (" 1;1;Ph;Pv with Ph, Pv in {1, 4096, 2^24, 9999999}): a later header re-declares what an
+\* earlier one set up - the "big" alphabet is explored by its own configurations (MC_SixelDecoder_big.cfg / Gen_SixelDecoder_big.cfg)
+Dec4096 == <<52, 48, 57, 54>>
+Dec2p24 == <<49, 54, 55, 55, 55, 50, 49, 54>>
+Dec9999999 == <<57, 57, 57, 57, 57, 57, 57>>
+RasterTok(a, b) == <<34, 49, 59, 49, 59>> \o a \o <<59>> \o b
+Dims == {<<49>>, Dec4096, Dec2p24, Dec9999999}
+AlphabetBig == { RasterTok(a, b) : a \in Dims, b \in Dims } \cup { <<126>>, <<45>>, <<36>>, <<33, 52, 48, 57, 54>>, <<35, 49>> }
 Flat(ts) == FlattenSeq(ts)
 Init == toks = <<>>
-Next == Len(toks) < MaxToks /\ \E t \in Alphabet : toks' = Append(toks, t)
+Next == Len(toks) < MaxToks /\ \E t \in (IF BigAlphabet THEN AlphabetBig ELSE Alphabet) : toks' = Append(toks, t)
 Spec == Init /\ [][Next]_toks
 Res == Decode(Flat(toks))
 \* C03 on the design: no payload, whatever its repeat counts, decodes to more than MaxDim x MaxDim pixels
